@@ -37,12 +37,22 @@ def run(ctx):
 
 
 def r1(ctx, F, hub):
+    if hub.optional_staging:
+        ctx.undecided('C10.R1', 'the put handler keeps its staging file in an Option (%s): which paths are created, renamed and removed depends on its value' % hub.optional_staging)
     for b, bb, c in hub.cg.call_sites(lambda c: c in MUT and MUT[c], within=hub.graph):
         t = b.blocks[bb]['term']
         where = b.path.split('::{')[0].split('::')[-1] + ('{closure}' if '::{' in b.path else '')
         short = c.split('::')[-1]
         classes = [hub.path_class(b, t['args'][p]) for p in MUT[c] if p < len(t['args'])]
         key = '%s:%s(%s)' % (where, short, ','.join(classes))
+        if hub.optional_staging:
+            # what stays decided: a TRUNCATING creator on a live name (File::create / fs::write / fs::copy onto the path itself)
+            # empties or rewrites the inode readers hold - whatever the Option says.  An exclusive create (create_new) makes a
+            # fresh empty inode and is content-free.
+            if c in tables.CONTENT_CREATORS and not c.endswith('OpenOptions::open') and hub.path_class(b, t['args'][tables.CONTENT_CREATORS[c]]) == 'live':
+                ctx.bad('C10.R1', key, 'file content is created directly at a live path with %s (the existing inode is truncated in place: a reader that has announced its length and hash '
+                        'delivers other bytes; a hard-linked sibling is emptied)' % short, term_loc(b, bb))
+            continue
         if c in tables.CONTENT_CREATORS:
             pos = tables.CONTENT_CREATORS[c]
             cls = hub.path_class(b, t['args'][pos])
@@ -73,6 +83,9 @@ def r1(ctx, F, hub):
 
 
 def r2_r4(ctx, F, hub):
+    if hub.optional_staging:
+        ctx.undecided('C10.R2', 'the put handler keeps its staging file in an Option (%s): the fsync / verify / rename chain is judged per call, not per value of that Option' % hub.optional_staging)
+        return
     b = F.body('serve::handle_put')
     if b is None:
         ctx.missing('C10.R2', 'serve::handle_put')
